@@ -1,48 +1,12 @@
-# Per-property configuration for ./check and tools/gen_manifest.py.
-# tiers: list of (engine, options); engines: 'rc' (rapidcheck over tapes), 'fuzz' (libFuzzer over the
-# same case function), 'script' (external engine writing the same worker report).
+# Per-property configuration for ./check and tools/gen_manifest.py: one fragment per property in props.d/Cxx.py
+# defining PROP = dict(title, level, technique, design_ref, level_text, level_note, assumptions, tiers).
+# tiers: list of (engine, options); engines: 'rc' (rapidcheck over tapes), 'fuzz' (libFuzzer over the same case
+# function), 'script' (external engine writing the same worker report).
+import glob, importlib.util, os
 
-W = 16  # thorough workers
-
-
-def rc(cases, workers=1, **kw):
-    return ('rc', dict(cases=cases, workers=workers, **kw))
-
-
-def fuzz(secs, workers=1, **kw):
-    return ('fuzz', dict(secs=secs, workers=workers, **kw))
-
-
-PROPS = {
-    'C08': dict(
-        title='SHA-256 and HMAC-SHA256 match the standards for every input',
-        level='exploration',
-        technique='property-based differential testing against OpenSSL (rapidcheck tapes + libFuzzer on the same case function)',
-        design_ref='DESIGN.md 5/C08',
-        level_text='Generated messages, update partitions, keys and candidate tags are compared with OpenSSL libcrypto; '
-                   'boundary lengths around the 55/56/64-byte padding edges and keys longer than one block are generated on purpose. '
-                   'Exploration is the right level: the property is a pure input/output equality against a standard.',
-        level_note='Trusted base: OpenSSL 3 EVP SHA-256/HMAC (self-checked against FIPS 180-4 / RFC 4231 vectors each run). '
-                   'A hasher object is never reused after finalize (not claimed by the property).',
-        assumptions=['OpenSSL libcrypto is a correct SHA-256/HMAC-SHA256 reference', 'hasher objects are not reused after finalize()'],
-        tiers={
-            'quick': [rc(20000)],
-            'thorough': [rc(60000, W), fuzz(120, 4, max_len=12 + 4 * 64)],
-        },
-    ),
-    'C06': dict(
-        title='Provider lookups return exactly the live, non-withdrawn providers',
-        level='exploration',
-        technique='stateful model-based property testing under a harness-owned virtual clock (rapidcheck tapes + libFuzzer)',
-        design_ref='DESIGN.md 5/C06',
-        level_text='Generated add/withdraw/find/sweep/advance histories with mixed per-announcement TTLs are run against KademliaTable and an '
-                   'explicit reference model; the live provider set is compared after every operation, at exact expiry instants (deadline, +-1 ns).',
-        level_note='Trusted base: the reference model in harness/C06.cpp (written from the property statement) and the interposed clock. '
-                   'Ties at the 20-provider cut are resolved by observation (any minimum-expiry element may be dropped).',
-        assumptions=['steady_clock is the only time source of KademliaTable (interposed by the harness)'],
-        tiers={
-            'quick': [rc(4000)],
-            'thorough': [rc(12000, W), fuzz(180, 8, max_len=4 + 8 * 80)],
-        },
-    ),
-}
+PROPS = {}
+for _p in sorted(glob.glob(os.path.join(os.path.dirname(os.path.abspath(__file__)), 'props.d', 'C*.py'))):
+    _spec = importlib.util.spec_from_file_location('propfrag_' + os.path.basename(_p)[:-3], _p)
+    _m = importlib.util.module_from_spec(_spec)
+    _spec.loader.exec_module(_m)
+    PROPS[os.path.basename(_p)[:-3]] = _m.PROP
